@@ -11,3 +11,7 @@ import FuraxProofs.Props.C06
 #print axioms Furax.C06.rotation_inverse_is_transpose
 #print axioms Furax.C06.moveaxis_inverse
 #print axioms Furax.C06.diagonal_pseudo_inverse
+#print axioms Furax.C06.closed_form_inverse_inverts
+#print axioms Furax.C06.singular_diagonal_pseudo_inverse
+#print axioms Furax.C06.no_closed_form_is_lazy
+#print axioms Furax.C06.lazy_inverse_inverts
